@@ -109,10 +109,84 @@ fn corr(args: &[String]) -> i32 {
     if mismatches > 0 { 1 } else { 0 }
 }
 
+/// float gap: the real crate's f64 results against the exact-rational reading of the generated model (`@Q` requests),
+/// on forward images of 8-bit colours.  Reports per function the largest |f64 - exact| and every discrete (integer) output
+/// on which the f64 code and the exact-real model decide differently.
+fn gap(args: &[String]) -> i32 {
+    let driver = arg(args, "--driver").expect("--driver");
+    let n: usize = arg(args, "--n").unwrap_or("400").parse().unwrap();
+    let seed: u64 = arg(args, "--seed").unwrap_or("1").parse().unwrap();
+    let only: Option<Vec<&str>> = arg(args, "--fns").map(|s| s.split(',').collect());
+    pools::VALID_ONLY.store(true, std::sync::atomic::Ordering::Relaxed);
+    std::panic::set_hook(Box::new(|_| {}));
+    let skip = |name: &str| -> bool {
+        ["Lchlab.", "Lchuv.", "Hcl.", "OkLch.", "Rec2100.", "F64.from_Luv", "Lab.from_Lchlab", "Luv.from_Lchuv", "Luv.from_Hcl", "OkLab.from_OkLch", "Xyz.from_Lchlab", "Xyz.from_Lchuv",
+         "Xyz.from_Hcl", "Xyz.from_OkLch", "Xyz.from_Rec2100", "F64.pq_", "Hex.", "Rgb.try_from_", "Rgb.from_vec", "Ycbcr.from_vec", "Rgb.new", "Rgb.default", "Ansi.finalize"].iter().any(|p| name.starts_with(p))
+            || name.ends_with(".as_vec") || name.ends_with(".from_vec") || name.ends_with(".default")
+    };
+    let mut reqs: Vec<(usize, String)> = Vec::new();
+    let mut names: Vec<String> = Vec::new();
+    for (fi, (name, params, _)) in gen_dispatch::FUNCS.iter().enumerate() {
+        if skip(name) { continue; }
+        if let Some(o) = &only { if !o.iter().any(|p| name == p) { continue; } }
+        let mut rng = Rng::new(seed.wrapping_mul(7_000_003).wrapping_add(fi as u64));
+        let cases = if params.is_empty() { 1 } else { n };
+        for i in 0..cases {
+            let mut toks: Vec<String> = vec![name.to_string()];
+            // spread the case index over the colour schedule (lattice, greys, edges, random)
+            let idx = (i * 7919) % (pools::LATTICE + 256 + 512 + 4000);
+            for p in params.iter() { toks.extend(pools::gen_arg(p, name, idx, cases, &mut rng)); }
+            reqs.push((names.len(), toks.join(" ")));
+        }
+        names.push(name.to_string());
+    }
+    let mut child = Command::new(driver).stdin(Stdio::piped()).stdout(Stdio::piped()).spawn().expect("spawn driver");
+    let mut stdin = child.stdin.take().unwrap();
+    let lines: Vec<String> = reqs.iter().map(|(_, l)| format!("@Q {}", l)).collect();
+    let writer = std::thread::spawn(move || { for l in lines { let _ = writeln!(stdin, "{}", l); } });
+    let rdr = BufReader::new(child.stdout.take().unwrap());
+    let mut exact: Vec<String> = Vec::with_capacity(reqs.len());
+    for l in rdr.lines() { exact.push(l.unwrap()); }
+    let _ = writer.join(); let _ = child.wait();
+    struct G { cases: usize, floats: usize, max_abs: f64, max_rel: f64, ints: usize, int_diff: usize, samples: Vec<String>, worst: String }
+    let mut gs: Vec<G> = names.iter().map(|_| G { cases: 0, floats: 0, max_abs: 0.0, max_rel: 0.0, ints: 0, int_diff: 0, samples: Vec::new(), worst: String::new() }).collect();
+    for ((fi, req), ex) in reqs.iter().zip(exact.iter()) {
+        let (name, input) = req.split_once(' ').unwrap_or((req.as_str(), ""));
+        let real = run_real(name, input);
+        let g = &mut gs[*fi]; g.cases += 1;
+        let tr: Vec<&str> = real.split_whitespace().collect(); let te: Vec<&str> = ex.split_whitespace().collect();
+        if tr.len() != te.len() { if g.samples.len() < 3 { g.samples.push(format!("shape differs: {} | impl {} | exact {}", req, real, ex)); } g.int_diff += 1; continue; }
+        for (a, b) in tr.iter().zip(te.iter()) {
+            if a.starts_with('x') && b.starts_with('d') {
+                let fa = f64::from_bits(u64::from_str_radix(&a[1..], 16).unwrap_or(0));
+                let fb: f64 = b[1..].parse().unwrap_or(f64::NAN);
+                if !fa.is_finite() { continue; }
+                g.floats += 1;
+                let d = (fa - fb).abs(); let r = d / (1.0 + fb.abs());
+                if d > g.max_abs { g.max_abs = d; g.worst = format!("{} -> f64 {:e} exact {:e}", req, fa, fb); }
+                if r > g.max_rel { g.max_rel = r; }
+            } else {
+                g.ints += 1;
+                if a != b { g.int_diff += 1; if g.samples.len() < 3 { g.samples.push(format!("{} | f64 code {} | exact-real model {}", req, real, ex)); } }
+            }
+        }
+    }
+    let mut js = String::from("{\"functions\":[");
+    for (k, (name, g)) in names.iter().zip(gs.iter()).enumerate() {
+        if k > 0 { js.push(','); }
+        js.push_str(&format!("{{\"name\":{},\"cases\":{},\"float_outputs\":{},\"max_abs_gap\":{:e},\"max_rel_gap\":{:e},\"discrete_outputs\":{},\"discrete_disagreements\":{},\"worst\":{},\"samples\":[{}]}}",
+            json_str(name), g.cases, g.floats, g.max_abs, g.max_rel, g.ints, g.int_diff, json_str(&g.worst), g.samples.iter().map(|x| json_str(x)).collect::<Vec<_>>().join(",")));
+    }
+    js.push_str(&format!("],\"requests\":{},\"seed\":{}}}", reqs.len(), seed));
+    if let Some(p) = arg(args, "--json") { std::fs::write(p, &js).unwrap(); } else { println!("{}", js); }
+    0
+}
+
 fn main() {
     let args: Vec<String> = std::env::args().collect();
     let code = match args.get(1).map(|s| s.as_str()) {
         Some("corr") => corr(&args[2..]),
+        Some("gap") => gap(&args[2..]),
         Some("sweep") => {
             let a = &args[2..];
             let id = a[0].as_str();
